@@ -50,6 +50,11 @@ Fragment(d) ==
                                     EXCEPT !.needs1 = TRUE, !.loops = <<[names |-> <<Wd("_d2")>>, packets |-> <<<<Bare(C1("2"))>>, <<Bare(C1("4"))>>>>]>>]
       [] d = "dup_loop_header" -> [F(Wd("loop_") \o Sp \o Wd("_d1") \o Sp \o Wd("_d2") \o Sp \o Wd("_d1") \o <<EOL>> \o C1("1") \o Sp \o C1("2") \o Sp \o C1("3"), 41)
                                     EXCEPT !.loops = <<[names |-> <<Wd("_d1"), Wd("_d2")>>, packets |-> <<<<Bare(C1("1")), Bare(C1("2"))>>>>]>>]
+      \* a loop header ALL of whose names are duplicates: every column is parsed and dropped, no loop is made, parsing goes on
+      [] d = "dup_loop_only" -> [F(Wd("loop_") \o Sp \o Name(1) \o <<EOL>> \o C1("1") \o Sp \o C1("2"), 41) EXCEPT !.needs1 = TRUE]
+      [] d = "dup_loop_twice" -> [F(Wd("loop_") \o Sp \o Wd("_d1") \o Sp \o Wd("_d2") \o <<EOL>> \o C1("1") \o Sp \o C1("2") \o <<EOL>>
+                                    \o Wd("loop_") \o Sp \o Wd("_d2") \o Sp \o Wd("_d1") \o <<EOL>> \o C1("3") \o Sp \o C1("4"), 41)
+                                   EXCEPT !.loops = <<[names |-> <<Wd("_d1"), Wd("_d2")>>, packets |-> <<<<Bare(C1("1")), Bare(C1("2"))>>>>]>>]
       [] d = "dup_block" -> [F(Wd("data_B") \o <<EOL>> \o Wd("_d1") \o Sp \o C1("1"), 11) EXCEPT !.items = <<It(Wd("_d1"), Bare(C1("1")))>>, !.lastonly = TRUE]
       [] d = "dup_frame" -> [F(Wd("save_g") \o Sp \o Wd("_d1") \o Sp \o C1("1") \o Sp \o Wd("save_") \o <<EOL>> \o Wd("save_G") \o Sp \o Wd("_d2") \o Sp \o C1("2") \o Sp \o Wd("save_"), 21)
                               EXCEPT !.frames = <<[code |-> <<"g">>, items |-> <<It(Wd("_d1"), Bare(C1("1"))), It(Wd("_d2"), Bare(C1("2")))>>]>>]
@@ -125,7 +130,7 @@ Fragment(d) ==
       [] d = "no_block_header" -> [F(Wd("_d1") \o Sp \o C1("1"), 113) EXCEPT !.anon = <<It(Wd("_d1"), Bare(C1("1")))>>]
 
 LastOnly == {"dup_block", "null_loop", "empty_loop", "unclosed_text", "unclosed_triple", "no_frame_term", "eof_in_frame"}
-Needs1 == {"dup_scalar", "dup_scalar_case", "dup_loop_stored"}
+Needs1 == {"dup_scalar", "dup_scalar_case", "dup_loop_stored", "dup_loop_only"}
 CountEol(t) == Cardinality(EolPos(t))
 HostItem(i) == <<EOL>> \o Name(i) \o SlotText(slots[i])
 HostBefore == Flatten([i \in 1..pos |-> HostItem(i)])
